@@ -39,7 +39,82 @@ func (t *VerifSnapOnce) Send(m Msg) {
 	t.lower.Send(m)
 }
 
+// VerifHold is a hold-and-release layer on the sender side of a node's transport (outermost wrapper): per
+// destination, messages of a chosen class pass, are queued (and later released IN ORDER, or discarded), or are dropped.
+// It gives the harness the message-level control that random loss rarely produces: acknowledgements held back while a
+// leader is deposed, commit-carrying heartbeats held back so that a follower has an entry but not its commit, ...
+type VerifHold struct {
+	lower Transport
+	mu    sync.Mutex
+	rule  map[string][2]int // destination -> (mode, class)
+	q     map[string][]Msg
+}
+
+const (
+	VerifPass  = 0
+	VerifHoldQ = 1
+	VerifDrop  = 2
+
+	VerifAll      = 0 // every message
+	VerifAcks     = 1 // AppEntsResp only
+	VerifCommitHB = 2 // AppEnts that let the follower commit everything they carry (LeaderCommit >= PrevLogIndex+len(Entries))
+)
+
+func NewVerifHold(lower Transport) *VerifHold {
+	return &VerifHold{lower: lower, rule: map[string][2]int{}, q: map[string][]Msg{}}
+}
+func (t *VerifHold) Addr() string        { return t.lower.Addr() }
+func (t *VerifHold) Receive() <-chan Msg { return t.lower.Receive() }
+func (t *VerifHold) Close() error        { return t.lower.Close() }
+func verifClass(m Msg, class int) bool {
+	switch class {
+	case VerifAcks:
+		_, ok := m.(*AppEntsResp)
+		return ok
+	case VerifCommitHB:
+		a, ok := m.(*AppEnts)
+		return ok && a.LeaderCommit >= a.PrevLogIndex+uint64(len(a.Entries))
+	}
+	return true
+}
+func (t *VerifHold) Send(m Msg) {
+	t.mu.Lock()
+	r := t.rule[m.GetTo()]
+	if r[0] != VerifPass && verifClass(m, r[1]) {
+		if r[0] == VerifHoldQ {
+			t.q[m.GetTo()] = append(t.q[m.GetTo()], m)
+		}
+		t.mu.Unlock()
+		return
+	}
+	t.mu.Unlock()
+	t.lower.Send(m)
+}
+
+// Set installs a rule for one destination (queued messages stay queued).
+func (t *VerifHold) Set(to string, mode, class int) {
+	t.mu.Lock()
+	t.rule[to] = [2]int{mode, class}
+	t.mu.Unlock()
+}
+
+// Release lets the link pass again and delivers what was queued, in order. Discard forgets the queue instead.
+func (t *VerifHold) Release(to string, discard bool) int {
+	t.mu.Lock()
+	q := t.q[to]
+	delete(t.q, to)
+	delete(t.rule, to)
+	t.mu.Unlock()
+	if !discard {
+		for _, m := range q {
+			t.lower.Send(m)
+		}
+	}
+	return len(q)
+}
+
 type VerifCluster struct {
+	holds    []*VerifHold
 	Nodes    []*Raft
 	names    []string
 	drops    []*msgDropper
@@ -60,7 +135,9 @@ func VerifNewCluster(cfgs []Config, dropP, dupP, reorderP float32, reorderMax ti
 			reorderMax = time.Millisecond
 		}
 		re := NewMsgReorder(du, reorderP, reorderMax, seed+int64(3*i+2)).(*msgReorder)
-		c.Nodes = append(c.Nodes, NewRaft(rc, newStorage(), re))
+		ho := NewVerifHold(re)
+		c.holds = append(c.holds, ho)
+		c.Nodes = append(c.Nodes, NewRaft(rc, newStorage(), ho))
 		c.names = append(c.names, rc.ID)
 		c.drops = append(c.drops, dr)
 		c.dups = append(c.dups, du)
@@ -79,6 +156,21 @@ func (c *VerifCluster) HealAll(p float32) {
 		for j := range c.Nodes {
 			if i != j {
 				c.Link(i, j, p)
+			}
+		}
+	}
+}
+
+// Hold installs a hold rule on the directed link i -> j; Release lifts it (delivering or discarding the queue).
+func (c *VerifCluster) Hold(i, j, mode, class int) { c.holds[i].Set(c.names[j], mode, class) }
+func (c *VerifCluster) Release(i, j int, discard bool) int {
+	return c.holds[i].Release(c.names[j], discard)
+}
+func (c *VerifCluster) ReleaseAll(discard bool) {
+	for i := range c.Nodes {
+		for j := range c.Nodes {
+			if i != j {
+				c.Release(i, j, discard)
 			}
 		}
 	}
